@@ -1,4 +1,4 @@
-From Coq Require Import List String ZArith Bool.
+From Coq Require Import List String ZArith Bool Arith.
 From Naunet Require Import Lib.Sexp Lib.ListX Model.Dup.
 Import ListNotations.
 Open Scope string_scope.
@@ -17,6 +17,12 @@ Definition get_rxn_key (x : sexp) : option rxn_key :=
   | _ => None
   end.
 
+Definition get_nat_pair (x : sexp) : option (nat * nat) :=
+  match x with
+  | L [a; b] => match get_nat a, get_nat b with Some a, Some b => Some (a, b) | _, _ => None end
+  | _ => None
+  end.
+
 Definition handle15 (cmd : string) (args : list sexp) : option sexp :=
   if String.eqb cmd "c15.finddup" then
     match args with
@@ -28,6 +34,18 @@ Definition handle15 (cmd : string) (args : list sexp) : option sexp :=
             let '(d2, f2) := find_dup (mode_eqb mode) kept in
             Some (L [L (map ns d); L (map ns f); L (map ns d2); L (map ns f2)])
         | None => Some (err "bad reactions")
+        end
+    | _ => Some (err "bad args")
+    end
+  else if String.eqb cmd "c15.hash" then
+    (* Reaction.__hash__ as lists: args = species (identity, hash class) table, reactions *)
+    match args with
+    | [hm; rs] =>
+        match get_list get_nat_pair hm, get_list get_rxn_key rs with
+        | Some hm, Some ks =>
+            let h := fun i => match find (fun p : nat * nat => Nat.eqb (fst p) i) hm with Some p => snd p | None => 0 end in
+            Some (L (map (fun k => L (map ns (rxn_hash h k))) ks))
+        | _, _ => Some (err "bad reactions")
         end
     | _ => Some (err "bad args")
     end
